@@ -59,13 +59,18 @@ Theorem C12_lone_bracket : forall g ci s, forallb wf_item g = true ->
 Proof. exact lone_bracket_literal. Qed.
 Print Assumptions C12_lone_bracket.
 
-(* the hypotheses are satisfiable: a[!b-d[:digit:]]*\?  is well-formed and spelled as expected *)
+(* the hypotheses are satisfiable: a[!b-d[:upper:]]*\?  is well-formed and spelled as expected *)
 Example C12_wf_witness :
-  let g := [GLit 97; GBr true [BRange 98 100; BClass 1]; GStar; GEsc 63] in
+  let g := [GLit 97; GBr true [BRange 98 100; BClass 3]; GStar; GEsc 63] in
   forallb wf_item g = true /\
-  show g = [97; 91; 33; 98; 45; 100; 91; 58; 100; 105; 103; 105; 116; 58; 93; 93; 42; 92; 63] /\
-  fn (sem false g) [97; 120; 121; 63] = true /\ fn (sem false g) [97; 99; 63] = false /\ fn (sem false g) [97; 55; 63] = false.
+  show g = [97; 91; 33; 98; 45; 100; 91; 58; 117; 112; 112; 101; 114; 58; 93; 93; 42; 92; 63] /\
+  fn (sem false g) [97; 120; 121; 63] = true /\ fn (sem false g) [97; 99; 63] = false /\ fn (sem false g) [97; 88; 63] = false.
 Proof. vm_compute. repeat split. Qed.
+
+(* a leading ^ negates exactly as ! does (POSIX leaves it unspecified; every fnmatch in use reads it so), also before "]" *)
+Theorem C12_caret_negates : forall s, extract_bracket (ch_caret :: s) = extract_bracket (ch_bang :: s).
+Proof. reflexivity. Qed.
+Print Assumptions C12_caret_negates.
 
 (* outside the well-formed fragment (a "]" or "-" as a list member, an unclosed bracket in the middle, collating
    symbols): the executable model is validated against the implementation and against glibc fnmatch on every run *)
@@ -77,7 +82,14 @@ Example C12_witness :
   glob_match false [97; 91; 98] [97; 91; 98] = 1 /\
   glob_match false [97; 92] [97; 92] = 0 /\
   glob_match true [70; 111; 42] [102; 79; 79] = 1 /\
-  glob_text [94; 102; 46; 36] = Some (Some [92; 94; 102; 92; 46; 92; 36]).
+  glob_text [94; 102; 46; 36] = Some (Some [92; 94; 102; 92; 46; 92; 36]) /\
+  (* [[:digit:]] is 0-9 (not U+0663) ; [[:punct:]] has "$" ; [^]a] on "b" and on "]" ; the ill-formed [[:]x] is "[" then [:]x] *)
+  glob_match false [91; 91; 58; 100; 105; 103; 105; 116; 58; 93; 93] [1635] = 0 /\
+  glob_match false [91; 91; 58; 112; 117; 110; 99; 116; 58; 93; 93] [36] = 1 /\
+  glob_match false [91; 94; 93; 97; 93] [98] = 1 /\ glob_match false [91; 94; 93; 97; 93] [93] = 0 /\
+  glob_match false [91; 91; 58; 93; 120; 93] [91; 58; 120; 93] = 1 /\ glob_match false [91; 91; 58; 93; 120; 93] [58; 120; 93] = 0 /\
+  (* [[:word:]] is not a POSIX class: "[" is literal there *)
+  glob_match false [91; 91; 58; 119; 111; 114; 100; 58; 93; 93] [119] = 0.
 Proof. vm_compute. repeat split. Qed.
 
 (* subject selection for -name/-iname (name.rs): the last component of the path as spelled.  Below a starting
